@@ -18,6 +18,26 @@ CHECKS = {
              "\\d/\\w). Well-formed schemas only (what the DSL produces).",
         technique="Coq proof (nested induction over schemas) + vm_compute correspondence vs implementation",
         design="6 C02"),
+    "C03": dict(
+        text="Theorem errors_located_true (Coq, all schemas incl. ill-formed, both validators, all values): every "
+             "reported error's path extends the position being validated, resolves from the root to exactly the "
+             "value it reports, and the fact it states (per kind) is true; rendered_path_spec for the path printed "
+             "in messages. Tie: per-run comparison of the whole ordered error list of the real validators with the "
+             "model, plus a direct oracle on the implementation (path resolution, fact, message text).",
+        note=COMMON_NOTE + "Message wording is not modelled, only which path is printed (checked by the oracle on "
+             "the real Formatter). Float facts use Coq's FloatAxioms (mul_spec, eqb_spec, SF2Prim_Prim2SF).",
+        technique="Coq proof (Forall-invariant by nested induction) + vm_compute correspondence + direct oracle",
+        design="6 C03"),
+    "C08": dict(
+        text="Theorem validate_total (Coq): the faithful partial model validateR, in which every Python operation "
+             "that can raise on a bad operand is partial, returns Ok for every well-formed schema and EVERY value, "
+             "and equals the total validator; validate_or_fail_spec. Tie: hostile-value zoo alone and injected at "
+             "every position, exhaustive leaf-schema x zoo grid; raises/returns and error counts compared with the "
+             "model; oracle: no exception, non-empty messages, validate_or_fail/format_result vs error list.",
+        note=COMMON_NOTE + "Objects whose own special methods raise are excluded, as the property says. Formatter "
+             "wording not modelled (non-emptiness checked on the real Formatter).",
+        technique="Coq proof (partial-vs-total validator agreement) + vm_compute correspondence + direct oracle",
+        design="6 C08"),
 }
 
 
